@@ -311,6 +311,7 @@ pub struct Ctx {
     start: Instant,
     jobs: usize,
     strict: bool,
+    shrink_iters: u32,
 }
 
 thread_local! {
@@ -516,7 +517,13 @@ impl Ctx {
             start: Instant::now(),
             jobs,
             strict: std::env::var_os("VERIF_STRICT").is_some(),
+            shrink_iters: 2000,
         }
+    }
+
+    /// bound on proptest shrink iterations for the following sub-checks (expensive cases: keep small)
+    pub fn set_shrink_iters(&mut self, n: u32) {
+        self.shrink_iters = n;
     }
 
     pub fn assume(&mut self, s: &str) {
@@ -622,6 +629,7 @@ impl Ctx {
         let prop = self.prop.as_str();
         let tier = self.tier;
         let strict = self.strict;
+        let shrink_iters = self.shrink_iters;
         let sname = name;
         std::thread::scope(|sc| {
             for _ in 0..self.jobs {
@@ -642,7 +650,7 @@ impl Ctx {
                         let cfg = Config {
                             cases: per,
                             failure_persistence: None,
-                            max_shrink_iters: 4000,
+                            max_shrink_iters: shrink_iters,
                             max_global_rejects: 65536,
                             ..Config::default()
                         };
